@@ -341,6 +341,13 @@ BinaryOutcome(op, r, a, b) ==
                   /\ FV.lab = "MT" /\ FM.lab = "MT" /\ FR.lab = "MT"
                   /\ FV.rng = FR.rng /\ FM.rng = FR.rng /\ FR.rng \in {"I", "R"}
                THEN Ok(VecMat(op = "VM_MULTIPLY", V, M, RelPairs(Sizes(FV)), FR.rng = "R"))
+               \* a boolean or integer matrix with an integer or real vector: the matrix
+               \* entries are plain integers, the (scaled) vector entries are multiplied by them
+               ELSE IF /\ ~FV.rel /\ FM.rel /\ ~FR.rel
+                       /\ FV.lab = "MT" /\ FM.lab = "MT" /\ FR.lab = "MT"
+                       /\ FV.rng = FR.rng /\ FR.rng \in {"I", "R"} /\ FM.rng \in {"B", "I"}
+               THEN LET raw == VecMat(op = "VM_MULTIPLY", V, M, RelPairs(Sizes(FV)), FALSE)
+                    IN Ok([i \in DOMAIN raw |-> IF Bad(raw[i]) THEN OffGrid ELSE Guard(raw[i], FR.rng = "R")])
                ELSE Unmodelled
       [] op \in ReachOps ->
             LET c == ImgClass(op, FA, FB, FR)  pairs == RelPairs(Sizes(FA))  fwd == op \in FwdOps IN
